@@ -7,7 +7,8 @@
 From Coq Require Import List ZArith Bool.
 From V Require Import Model.RingSeq Model.SyncRingSeq Run.C10 Proofs.RingPure Proofs.RingSeq
   Proofs.SyncRingSeq Proofs.SyncRingCap Proofs.SyncRingRun Proofs.C10Entry
-  Lib.GoSem Gen.RingCode Run.C10Code Proofs.RingCode.
+  Lib.GoSem Gen.RingCode Run.C10Code Proofs.RingCode
+  Lib.GoSemRec Gen.SyncRingCode Run.C10SyncCode Proofs.SyncRingCode Proofs.SyncRingCodeRun.
 Import ListNotations.
 Local Open Scope Z_scope.
 
@@ -127,3 +128,54 @@ Print Assumptions c10_code_is_model.
 Theorem c10_entry_runs_generated_code : forall sub args, entry_code sub args = entry sub args.
 Proof. exact entry_code_is_entry. Qed.
 Print Assumptions c10_entry_runs_generated_code.
+
+(* ---------------------------------------------------------------- ... and so is SyncRing, read sequentially *)
+(* Gen/SyncRingCode.v is produced on every run by the same translator from ringz/sync.go: types item and SyncRing,
+   NewSync, Init (capacity switch, call of roundupPowOfTwo, slot numbering loop), IsEmpty, IsFull, Len, Cap, Push, Pop, and
+   PushWait / PopWait up to their ticker loops.  atomic.LoadUint32 / StoreUint32 / CompareAndSwapUint32 are translated with
+   their SEQUENTIAL meaning (plain read, plain write, compare-and-write returning the flag), runtime.Gosched() as nothing
+   (gen/trans_seq.go, valid for ONE goroutine only: this is the model of C10, not of C01); uint32 arithmetic wraps.
+   to_sring / of_sring: the explicit bijection between the generated Records (SyncRing, item) and the model's sring with
+   slots (value, pos); sst_res / sst_swap_res: the state goes back through of_sring and Go returns (value, ok), the model
+   (ok, value); ires_m: IPanic = Panic, INoFuel = NoFuel.
+   Premise 0 <= mask (Push, Pop and the waits): the field is a uint32; the model indexes with Z.to_nat (pos land mask), the
+   code checks 0 <= index, and the two agree exactly when the index cannot be negative.
+   Init: for EVERY fuel the code equals init_fuel (the model's capacity switch and numbering with the fuel of the two loops
+   explicit); with 64 <= fuel and fuel above the capacity the model computes, it equals the model's init_on; fuel 2^32
+   suffices for every request.
+   PushWait(v, w) / PopWait(w), for every w, every fuel and every remainder `rest` (the code from time.NewTicker on is not
+   translated; it is a parameter): push_wait_model / pop_wait_model — w = 0: one attempt (the model's SPushWait v false /
+   SPopWait false); w < 0: a failed attempt leaves the state unchanged and is repeated for ever (NoFuel for every fuel: from
+   one goroutine PushWait(v, -1) on a full ring does not return); w > 0: one attempt, then the remainder. *)
+Theorem c10_sync_code_is_model :
+  (forall fuel r c, g_SyncRing_Init fuel r c = init_fuel fuel (SyncRing_head r) (SyncRing_tail r) c) /\
+  (forall fuel r c, (64 <= fuel)%nat -> (forall c32, init_cap c = Some (Some c32) -> c32 < Z.of_nat fuel) ->
+                    g_SyncRing_Init fuel r c = ires_m (init_on (SyncRing_head r) (SyncRing_tail r) c)) /\
+  (forall fuel r c, 2 ^ 32 <= Z.of_nat fuel ->
+                    g_SyncRing_Init fuel r c = ires_m (init_on (SyncRing_head r) (SyncRing_tail r) c)) /\
+  (forall fuel c, g_NewSync fuel c = init_fuel fuel 0 0 c) /\
+  (forall fuel c, (64 <= fuel)%nat -> (forall c32, init_cap c = Some (Some c32) -> c32 < Z.of_nat fuel) ->
+                  g_NewSync fuel c = ires_m (sinit c)) /\
+  (forall r, g_SyncRing_IsEmpty r = Ret (sis_empty (to_sring r))) /\
+  (forall r, g_SyncRing_IsFull r = Ret (sis_full (to_sring r))) /\
+  (forall r, g_SyncRing_Len r = Ret (slen (to_sring r))) /\
+  (forall r, g_SyncRing_Cap r = Ret (scap (to_sring r))) /\
+  (forall r v, 0 <= SyncRing_mask r -> g_SyncRing_Push r v = mmap sst_res (lift (spush (to_sring r) v))) /\
+  (forall r, 0 <= SyncRing_mask r -> g_SyncRing_Pop r = mmap sst_swap_res (lift (spop (to_sring r)))) /\
+  (forall fuel r v w rest, 0 <= SyncRing_mask r ->
+     g_SyncRing_PushWait fuel r v w rest = push_wait_model fuel (to_sring r) v w rest) /\
+  (forall fuel r w rest, 0 <= SyncRing_mask r ->
+     g_SyncRing_PopWait fuel r w rest = pop_wait_model fuel (to_sring r) w rest).
+Proof.
+  exact (conj code_SyncInit_fuel (conj code_SyncInit (conj code_SyncInit_any (conj code_NewSync_fuel (conj code_NewSync
+        (conj code_SyncIsEmpty (conj code_SyncIsFull (conj code_SyncLen (conj code_SyncCap (conj code_SyncPush (conj code_SyncPop
+        (conj code_SyncPushWait code_SyncPopWait)))))))))))).
+Qed.
+Print Assumptions c10_sync_code_is_model.
+
+(* the SyncRing cases of the correspondence run (kinds 1 and 2), executed through the generated functions
+   (Run/C10SyncCode.v: NewSync, Push, Pop, Len, IsEmpty, IsFull, Cap, Init, PushWait / PopWait; the counter injection, the
+   Dump and the remainder of the 1ns waits are the model's), give the output of `entry` on every case *)
+Theorem c10_entry_runs_generated_sync_code : forall sub args, entry_sync_code sub args = entry sub args.
+Proof. exact entry_sync_code_is_entry. Qed.
+Print Assumptions c10_entry_runs_generated_sync_code.
